@@ -16,7 +16,7 @@ open E
 theorem mem_dedup (x : String) : ∀ l : List String, x ∈ dedup l ↔ x ∈ l
   | [] => by simp [dedup]
   | y :: t => by
-    simp only [dedup, List.mem_cons, List.mem_filter, mem_dedup x t, bne_iff_ne, ne_eq]
+    simp only [dedup, List.mem_cons, List.mem_filter, mem_dedup x t]
     constructor
     · rintro (h | ⟨h, _⟩)
       · exact Or.inl h
@@ -25,7 +25,7 @@ theorem mem_dedup (x : String) : ∀ l : List String, x ∈ dedup l ↔ x ∈ l
       · exact Or.inl h
       · by_cases hx : x = y
         · exact Or.inl hx
-        · exact Or.inr ⟨h, hx⟩
+        · exact Or.inr ⟨h, by simp [hx]⟩
 
 theorem startsAny_dedup (s : List Char) (ps : List String) : startsAny s (dedup ps) = startsAny s ps := by
   unfold startsAny
